@@ -2,6 +2,7 @@ package main
 
 import (
 	"fmt"
+	"sort"
 	"go/ast"
 	"go/parser"
 	"go/types"
@@ -906,4 +907,31 @@ func (x *Exec) applyGhostSet(st, old *State, c *Clause, pkg *types.Package, env 
 		return
 	}
 	st.ghost[g] = Val{T: cur.T, L: v.L}
+}
+
+// indexCandidates lists the values of range-loop indices (k and k+1) that have
+// been computed in this frame; they are natural witnesses for "exists k".
+func (fr *Frame) indexCandidates() []string {
+	var out []string
+	seen := map[string]bool{}
+	for v, val := range fr.vals {
+		var ok bool
+		switch t := v.(type) {
+		case *ssa.Phi:
+			ok = t.Comment == "rangeindex"
+		case *ssa.BinOp:
+			if p, isPhi := t.X.(*ssa.Phi); isPhi && p.Comment == "rangeindex" {
+				ok = true
+			}
+		}
+		if ok && len(val.L) == 1 && !seen[val.L[0]] {
+			seen[val.L[0]] = true
+			out = append(out, val.L[0])
+		}
+	}
+	sort.Strings(out)
+	if len(out) > 8 {
+		out = out[:8]
+	}
+	return out
 }
